@@ -141,7 +141,19 @@ var libBlocking = map[string]bool{
 
 // library methods that are known not to block (anything else on these types aborts)
 var libPure = map[string]bool{
-	"(*github.com/nats-io/nats.go.Conn).Status": true,
+	"(*github.com/nats-io/nats.go.Conn).Status":            true,
+	"(*github.com/nats-io/nats.go.Conn).IsClosed":          true,
+	"(*github.com/nats-io/nats.go.Conn).IsConnected":       true,
+	"(*github.com/nats-io/nats.go.Conn).IsReconnecting":    true,
+	"(*github.com/nats-io/nats.go.Conn).IsDraining":        true,
+	"(*github.com/nats-io/nats.go.Conn).MaxPayload":        true,
+	"(*github.com/nats-io/nats.go.Conn).Stats":             true,
+	"(*github.com/nats-io/nats.go.Conn).LastError":         true,
+	"(*github.com/nats-io/nats.go.Conn).NewRespInbox":      true,
+	"(*github.com/nats-io/nats.go.Subscription).IsValid":   true,
+	"(*github.com/nats-io/nats.go.Subscription).Pending":   true,
+	"(*github.com/nats-io/nats.go.Subscription).Dropped":   true,
+	"(*github.com/nats-io/nats.go.Subscription).Delivered": true,
 }
 
 func (r *rewriter) pre(c *astutil.Cursor) bool {
@@ -255,7 +267,14 @@ func (r *rewriter) postCall(c *astutil.Cursor, n *ast.CallExpr) {
 				return
 			}
 			if !libBlocking[full] {
-				die("%s: call to %s is not classified (blocking or pure) in simgen", r.pos(n), full)
+				// a library method this table has not seen (a changed tree may call anything): with results it is
+				// treated like a blocking call (a mandatory yield after it - conservative, it only adds a
+				// scheduling point); a call without results cannot be wrapped as an expression and is left alone
+				fmt.Fprintf(os.Stderr, "simgen: %s: %s is not classified; treated as %s\n", r.pos(n), full,
+					map[bool]string{true: "blocking", false: "non-blocking (no result to wrap)"}[sig.Results().Len() >= 1 && sig.Results().Len() <= 2])
+				if sig.Results().Len() < 1 || sig.Results().Len() > 2 {
+					return
+				}
 			}
 			switch c.Parent().(type) {
 			case *ast.DeferStmt, *ast.GoStmt:
